@@ -168,7 +168,15 @@ fn gen_case(rng: &mut Rng, fam: Family, table: &Table) -> (Tree, Vec<Tok>, Strin
         brace: rng.below(3),
         call_script: None,
     };
-    let toks = render_tokens(&tree, table, rng, &cfg);
+    let mut toks = render_tokens(&tree, table, rng, &cfg);
+    if fam == Family::Val {
+        // some number literals become array literals (one token for the value-typed parser)
+        for t in toks.iter_mut() {
+            if t.kind == TK::Num && rng.chance(1, 4) {
+                t.text = ["[1.0, 2.0]", "[3]", "[0.5,1.5,2.5]", "[ 1.0 , 2.0, 3.0, 4.0 ]"][rng.below(4)].to_string();
+            }
+        }
+    }
     let text = join_plain(&toks, table);
     (tree, toks, text)
 }
